@@ -175,3 +175,137 @@ def c18_cases(rng, tier):
         cases.append("decmuts " + L(ws))
         cases.append("decmut " + L(ws))
     return cases, oracles
+
+
+def rand_sol(rng):
+    return sol(contract=rng.choice([ADDR_A, ADDR_C, addr(rng.randrange(4))]), predicate=addr(rng.randrange(5)),
+               data=[[rng.choice(BOUNDARY_WORDS) for _ in range(rng.randrange(4))] for _ in range(rng.randrange(3))],
+               muts=[([rng.randrange(-2, 300) for _ in range(rng.randrange(3))], [rng.choice(BOUNDARY_WORDS) for _ in range(rng.randrange(3))])
+                     for _ in range(rng.randrange(3))])
+
+
+def contract_tok(preds, salt):
+    return f"{len(preds)}" + "".join(" " + pred_tok(n, e) for n, e in preds) + " " + hx(salt)
+
+
+def c17_cases(rng, tier):
+    cases, oracles = [], []
+    n = 150 if tier == "quick" else 5000
+    # predicates / programs
+    for nn, ne in ((0, 0), (1, 1), (1000, 1000), (1001, 0), (0, 1001)):
+        nodes = [((i * 7) % 65536, addr(i)) for i in range(nn)]
+        cases.append("addr_pred " + pred_tok(nodes, [(i * 13) % 65536 for i in range(ne)]))
+        oracles.append("o_predrt " + pred_tok(nodes, [(i * 13) % 65536 for i in range(ne)]))
+    for ln in (0, 1, 55, 56, 63, 64, 65, 119, 120, 1000):
+        cases.append("addr_prog " + hx(bytes((i * 3) & 0xFF for i in range(ln))))
+    for _ in range(n):
+        nodes, edges = rand_pred(rng)
+        cases.append("addr_pred " + pred_tok(nodes, edges))
+        oracles.append("o_predrt " + pred_tok(nodes, edges))
+        # contracts: random, with repeated predicates, permuted, single-field perturbations
+        preds = [rand_pred(rng, rng.choice([0, 1, 2]), rng.choice([0, 1, 2])) for _ in range(rng.choice([0, 1, 2, 3, 5]))]
+        if preds and rng.random() < 0.4:
+            preds.append(preds[0])
+        salt = bytes(rng.choice([0, 0, rng.randrange(256)]) for _ in range(32))
+        cases.append("addr_contract " + contract_tok(preds, salt))
+        oracles.append("o_addr_contract " + contract_tok(preds, salt))
+        # perturbations: one node address byte, one edge, the salt, a duplicate removed / added
+        other = [list(p) for p in preds]
+        which = rng.randrange(5)
+        salt2 = salt
+        if which == 0 or not other:
+            salt2 = bytes([salt[0] ^ 1]) + salt[1:]
+        elif which == 1:
+            other = other + [other[0]]
+        elif which == 2:
+            other = other[1:]
+        elif which == 3:
+            nodes0, edges0 = other[0]
+            other[0] = (nodes0, edges0 + [3])
+        else:
+            other = list(reversed(other))
+        oracles.append("o_addr_distinct " + contract_tok(preds, salt) + " " + contract_tok(other, salt2))
+        # solutions and sets
+        s1 = rand_sol(rng)
+        cases.append("addr_solution " + sol_tok(s1))
+        s2 = (s1[0], s1[1], s1[2] + [[]], s1[3]) if rng.random() < 0.3 else rand_sol(rng)
+        if rng.random() < 0.2:
+            s2 = (s1[0], s1[1], [list(d) for d in s1[2]], [(list(k), list(v) + [0]) for k, v in s1[3]] or [([], [])])
+        oracles.append("o_sol_distinct " + sol_tok(s1) + " " + sol_tok(s2))
+        ss = [rand_sol(rng) for _ in range(rng.choice([1, 2, 3, 5]))]
+        if rng.random() < 0.3:
+            ss.append(ss[0])
+        cases.append("addr_set " + sols_tok(ss))
+        oracles.append("o_addr_set " + sols_tok(ss))
+    # postcard corner values: every varint / zigzag boundary
+    for w in [0, 1, -1, 63, 64, -64, -65, 127, 128, 8191, 8192, -8192, -8193, I64_MAX, I64_MIN, 1 << 31, -(1 << 31), (1 << 62)]:
+        cases.append("addr_solution " + sol_tok(sol(data=[[w]], muts=[([w], [w, w])])))
+    for ln in (0, 1, 127, 128, 129, 300):
+        cases.append("addr_solution " + sol_tok(sol(data=[[5] * ln] + [[]] * (ln % 130))))
+    return cases, oracles
+
+
+def c19_cases(rng, tier):
+    from . import common as C
+    cases, oracles = [], []
+    n = 25 if tier == "quick" else 400
+    big = pred_tok([(EDGE_MAX, addr(1))] * 1001, [])
+    jobs = []
+    for i in range(n):
+        sk = bytes(rng.randrange(1, 256) for _ in range(32))
+        preds = [rand_pred(rng, rng.choice([0, 1, 2]), rng.choice([0, 1, 2])) for _ in range(rng.choice([0, 1, 2, 3, 4]))]
+        if preds and rng.random() < 0.4:
+            preds.append(preds[rng.randrange(len(preds))])
+        salt = bytes(rng.choice([0, rng.randrange(256)]) for _ in range(32))
+        # a tampered version
+        t_preds, t_salt = [p for p in preds], salt
+        w = rng.randrange(5)
+        if w == 0 or not preds:
+            t_salt = bytes([salt[31] ^ 0x80]) + salt[1:]
+        elif w == 1:
+            t_preds = preds + [preds[0]]
+        elif w == 2:
+            t_preds = preds[1:]
+        elif w == 3:
+            nodes0, edges0 = preds[0]
+            t_preds = [(nodes0 + [(EDGE_MAX, addr(9))], edges0)] + preds[1:]
+        else:
+            t_preds = [preds[0]] * len(preds)
+        jobs.append((sk, preds, salt, t_preds, t_salt))
+        oracles.append(f"o_sign {hx(sk)} {contract_tok(preds, salt)} {contract_tok(t_preds, t_salt)}")
+    # phase 1: reference signatures from the sign crate
+    q = [f"j{i} sign_contract {hx(sk)} {contract_tok(preds, salt)}" for i, (sk, preds, salt, _, _) in enumerate(jobs)]
+    q += [f"t{i} sign_contract {hx(sk)} {contract_tok(tp, ts)}" for i, (sk, _, _, tp, ts) in enumerate(jobs)]
+    ans = C.run_bin(C.HARNESS_BIN, q)
+    rec_q, plan = [], []
+    for i, (sk, preds, salt, tp, ts) in enumerate(jobs):
+        a, b = ans.get(f"j{i}", "").split(" "), ans.get(f"t{i}", "").split(" ")
+        if len(a) != 4 or len(b) != 4:
+            continue
+        addr_c, sig, rid = bytes.fromhex(a[0][1:]), bytes.fromhex(a[1][1:]), int(a[2])
+        addr_t = bytes.fromhex(b[0][1:])
+        variants = [(preds, salt, addr_c, sig, rid), (list(reversed(preds)), salt, addr_c, sig, rid),
+                    (tp, ts, addr_t, sig, rid), (preds, salt, addr_c, sig, rid ^ 1), (preds, salt, addr_c, sig, 2),
+                    (preds, salt, addr_c, sig[::-1], rid), (preds, salt, addr_c, bytes(64), rid),
+                    (preds, salt, addr_c, bytes([0xFF] * 64), 0), (preds, salt, addr_c, sig, 4), (preds, salt, addr_c, sig, 255)]
+        for v in variants:
+            plan.append(v)
+            rec_q.append(f"r{len(plan) - 1} secp_recover {hx(v[2])} {hx(v[3])} {v[4]}")
+    ans2 = C.run_bin(C.HARNESS_BIN, rec_q)
+    for k, (preds, salt, addr_m, sig, rid) in enumerate(plan):
+        r = ans2.get(f"r{k}", "")
+        if not r:
+            continue
+        tab = "0" if rid > 3 else f"1 {hx(addr_m)} {hx(sig)} {rid} {r}"
+        cases.append(f"recover_contract {contract_tok(preds, salt)} {hx(sig)} {rid} {tab}")
+        if k % 3 == 0:
+            cases.append(f"chksigned {contract_tok(preds, salt)} {hx(sig)} {rid} {tab}")
+        # the VM's recovery op consumes the same 4 + 8 + 1 word encoding: the id word must be exactly the id
+        if k % 10 == 0 and rid <= 3:
+            from . import gen_vm
+            for idw in (rid, rid + (1 << 32), rid - (1 << 32), rid + I64_MIN, rid + 4, -1):
+                t = [(addr_m, sig, rid, r)] if idw == rid else []
+                c = gen_vm.case([gen_vm.op("RSECP")], stack=[5] + gen_vm.words_of_bytes(addr_m) + gen_vm.words_of_bytes(sig) + [idw], secps=t)
+                cases.append(c)
+                oracles.append(gen_vm.as_oracle(c, "o_access"))
+    return cases, oracles
